@@ -60,13 +60,8 @@ fn main() {
     let _ = std::fs::create_dir_all(&out);
     // panics are expected observations; keep stderr quiet
     std::panic::set_hook(Box::new(|info| {
-<<<<<<< HEAD
-        if std::env::var("SNT_PANIC_VERBOSE").is_ok() {
+        if std::env::var_os("SNT_PANIC_VERBOSE").is_some() || std::env::var_os("VERIF_HARNESS_DEBUG").is_some() {
             eprintln!("panic: {}", info);
-=======
-        if std::env::var_os("VERIF_HARNESS_DEBUG").is_some() {
-            eprintln!("{}", info);
->>>>>>> ws-c18
         }
     }));
 
